@@ -256,6 +256,7 @@ def gen_case(rng, scheme=None, n=None, idx=None, vec=None, with_ds=None, smax_ca
         "parallel": False,
         "scalar_out": m == 1 and rng.chance(0.25),
         "step_via": "ctor" if (not vec and rng.chance(0.2)) else "arg",
+        "idx_form": "tuple" if (idx and rng.chance(0.3)) else "list",
     }
     return case
 
@@ -327,6 +328,7 @@ def gen_rounded_case(rng) -> dict[str, Any]:
         "scheme": scheme, "n": n, "m": m, "polys": polys, "x": [rat(v) for v in x], "idx": idx,
         "step": [rat(F(h)) for h in hs] if vec else rat(F(hs[0])), "ds": ds, "parallel": False,
         "scalar_out": False, "step_via": via, "stream": "rounded",
+        "idx_form": "tuple" if (idx and rng.chance(0.3)) else "list",
     }
 
 
@@ -431,14 +433,14 @@ def run_impl(case, parallel: str | None = None) -> dict[str, Any]:
     try:
         if case.get("step_via") == "default":
             approx = cls(fn, **kwargs)
-            jac = approx.f_gradient(np.array([float(Fraction(v)) for v in case["x"]]), x_indices=list(case["idx"]))
+            jac = approx.f_gradient(np.array([float(Fraction(v)) for v in case["x"]]), x_indices=_idx_arg(case))
         elif case.get("step_via") == "ctor" and not isinstance(st, list):
             approx = cls(fn, step=step, **kwargs)
-            jac = approx.f_gradient(np.array([float(Fraction(v)) for v in case["x"]]), x_indices=list(case["idx"]))
+            jac = approx.f_gradient(np.array([float(Fraction(v)) for v in case["x"]]), x_indices=_idx_arg(case))
         else:
             approx = cls(fn, **kwargs)
             jac = approx.f_gradient(
-                np.array([float(Fraction(v)) for v in case["x"]]), step=step, x_indices=list(case["idx"])
+                np.array([float(Fraction(v)) for v in case["x"]]), step=step, x_indices=_idx_arg(case)
             )
     except Exception as e:  # noqa: BLE001
         out["exc"] = common.exc_class(e)
@@ -631,8 +633,15 @@ def fmt_calls(calls) -> str:
 # --------------------------------------------------------------------------- oracle (property text)
 
 
+def _idx_arg(case):
+    """`x_indices` as the case gives it: a list, or a tuple (`Sequence[int]`, like the documented default `()`)."""
+    return tuple(case["idx"]) if case.get("idx_form") == "tuple" else list(case["idx"])
+
+
 def key_tags(case) -> str:
     tags = ["subset" if case["idx"] else "all", "ds" if case.get("ds") else "nods", "vec" if isinstance(case["step"], list) else "scalar"]
+    if case.get("idx_form") == "tuple" and case["idx"]:
+        tags.append("tuple")
     return ",".join(tags)
 
 
@@ -1528,6 +1537,7 @@ def check_cases(res: Result, cases: list[dict[str, Any]], rng, scope: bool = Tru
         observed = impl_par if par else impl_ser
         k = len(eff_idx(case))
         res.count(f"scheme={case['scheme']}")
+        res.count(f"x_indices-form={case.get('idx_form', 'list')}")
         res.count(f"n={case['n']}")
         res.count(f"k={'all' if not case['idx'] else k}")
         res.count("step=vec" if isinstance(case["step"], list) else "step=scalar")
